@@ -44,6 +44,7 @@ type zzTransport struct {
 	log            []string
 	closed         int
 	goodbyeFault   int // 0 ok, 1 exception envelope, 2 transport error, 3 truncated reply, 4 garbage
+	genFault       int // 0 ok, 1 exception envelope, 2 transport error, 3 truncated reply, 4 garbage
 }
 
 func (t *zzTransport) Send(req []byte) ([]byte, error) {
@@ -65,6 +66,16 @@ func (t *zzTransport) Send(req []byte) ([]byte, error) {
 		}
 		return zzEnv(2, "Plugin:goodbye", 1, []byte{0}), nil
 	case "ServiceGenerator:generate":
+		switch t.genFault {
+		case 1:
+			return zzEnv(3, "ServiceGenerator:generate", 1, []byte{0x0b, 0x00, 0x01, 0, 0, 0, 1, 'x', 0x08, 0x00, 0x02, 0, 0, 0, 6, 0x00}), nil
+		case 2:
+			return nil, errors.New("pipe closed")
+		case 3:
+			return t.genReply[:len(t.genReply)/2], nil
+		case 4:
+			return []byte{0xff, 0xfe, 0x01}, nil
+		}
 		return t.genReply, nil
 	}
 	return nil, errors.New("unexpected request")
@@ -163,11 +174,16 @@ func h16a() {
 	sg := h.ServiceGenerator()
 	verifAssert((sg != nil) == (hasFeature == 1), "generator-iff-feature-advertised")
 	if sg != nil {
+		t.genFault = verifChoice(5)
 		res, gerr := sg.Generate(&api.GenerateServiceRequest{RootServices: []api.ServiceID{}, Services: map[api.ServiceID]*api.Service{}, Modules: map[api.ModuleID]*api.Module{}})
 		dotdot := verifB2I(path[0] == '.')&verifB2I(path[1] == '.') | verifB2I(path[1] == '.')&verifB2I(path[2] == '.')
 		verifObserveBool("generate-err", gerr != nil)
 		verifObserveInt("dotdot", int64(dotdot))
-		verifAssert((gerr != nil) == (dotdot == 1), "dotdot-paths-rejected")
+		if t.genFault != 0 {
+			verifAssert(gerr != nil, "generate-fault-reported")
+		} else {
+			verifAssert((gerr != nil) == (dotdot == 1), "dotdot-paths-rejected")
+		}
 		if gerr == nil {
 			verifAssert(len(res.Files) == 1, "files-delivered")
 		}
